@@ -75,6 +75,9 @@ class Ctx:
             return self.err(construct, 'ANALYSIS: %s' % e, where, rule)
         except T.Unsupported as e:
             return self.err(construct, 'construct not understood: %s' % e, where, rule)
+        except (IndexError, KeyError, TypeError, ValueError, AttributeError) as e:
+            # the code no longer has the shape this rule reads its facts from
+            return self.err(construct, 'code shape not understood by this rule (%s: %s)' % (type(e).__name__, e), where, rule)
 
     def equal(self, construct, got, exp, where='', what='value', rule=None):
         """Compare two python values (tables); point at the first differing element."""
